@@ -1141,9 +1141,53 @@ func (in *e8interp) exec(fr *e8frame, st ast.Stmt) *e8return {
 		if s.Init != nil {
 			in.exec(fr, s.Init)
 		}
+		// bounded abstraction of `for i := 0; i < len(x); i++` over an opaque slice (same as for range loops)
+		boundedSlice := ""
+		if in.rangeMax > 0 && s.Cond != nil {
+			if be, ok := ast.Unparen(s.Cond).(*ast.BinaryExpr); ok && be.Op == token.LSS {
+				if rv := in.evalQuiet(fr, be.Y); rv != nil && rv.k == kScalar && rv.name != "" {
+					if _, isNum := numericAtom(rv.name); !isNum {
+						if lv := in.evalQuiet(fr, be.X); lv != nil && lv.k == kInt {
+							boundedSlice = rv.name
+							if strings.HasPrefix(rv.name, "len(") && strings.HasSuffix(rv.name, ")") {
+								boundedSlice = rv.name[4 : len(rv.name)-1]
+							}
+						}
+					}
+				}
+			}
+		}
 		for iter := 0; ; iter++ {
 			if iter > 16 {
 				e8fail("loop does not terminate within the unrolling bound")
+			}
+			if boundedSlice != "" {
+				if iter >= in.rangeMax {
+					break
+				}
+				name := fmt.Sprintf("more(%s)#%d", boundedSlice, iter)
+				enter := false
+				if in.collect != nil {
+					in.collect.bools[name] = true
+					enter = true
+				} else {
+					enter = in.a.B(name)
+				}
+				if !enter {
+					break
+				}
+				if r := in.loopBody(fr, s.Body); r != nil {
+					if r == breakSignal {
+						break
+					}
+					if r != continueSignal {
+						return r
+					}
+				}
+				if s.Post != nil {
+					in.exec(fr, s.Post)
+				}
+				continue
 			}
 			if s.Cond != nil {
 				c := in.eval(fr, s.Cond)
